@@ -1,34 +1,33 @@
 (* Conversions between S-expressions / OCaml data and the extracted Coq datatypes. *)
 module BZ = Z
-open Model
 
-let rec pos_of_z (z : BZ.t) : positive =
-  if BZ.equal z BZ.one then XH
-  else if BZ.is_even z then XO (pos_of_z (BZ.shift_right z 1))
-  else XI (pos_of_z (BZ.shift_right z 1))
+let rec pos_of_z (z : BZ.t)  : Model.positive =
+  if BZ.equal z BZ.one then Model.XH
+  else if BZ.is_even z then Model.XO (pos_of_z (BZ.shift_right z 1))
+  else Model.XI (pos_of_z (BZ.shift_right z 1))
 
 let cz_of_z (z : BZ.t) : Model.z =
-  if BZ.equal z BZ.zero then Z0
-  else if BZ.sign z > 0 then Zpos (pos_of_z z)
-  else Zneg (pos_of_z (BZ.neg z))
+  if BZ.equal z BZ.zero then Model.Z0
+  else if BZ.sign z > 0 then Model.Zpos (pos_of_z z)
+  else Model.Zneg (pos_of_z (BZ.neg z))
 
 let rec z_of_pos = function
-  | XH -> BZ.one
-  | XO p -> BZ.shift_left (z_of_pos p) 1
-  | XI p -> BZ.succ (BZ.shift_left (z_of_pos p) 1)
+  | Model.XH -> BZ.one
+  | Model.XO p -> BZ.shift_left (z_of_pos p) 1
+  | Model.XI p -> BZ.succ (BZ.shift_left (z_of_pos p) 1)
 
 let z_of_cz = function
-  | Z0 -> BZ.zero
-  | Zpos p -> z_of_pos p
-  | Zneg p -> BZ.neg (z_of_pos p)
+  | Model.Z0 -> BZ.zero
+  | Model.Zpos p -> z_of_pos p
+  | Model.Zneg p -> BZ.neg (z_of_pos p)
 
 let cz_of_string s = cz_of_z (BZ.of_string s)
 let string_of_cz z = BZ.to_string (z_of_cz z)
 let cz_of_int i = cz_of_z (BZ.of_int i)
 let int_of_cz z = BZ.to_int (z_of_cz z)
 
-let rec nat_of_int i = if i <= 0 then O else S (nat_of_int (i - 1))
-let rec int_of_nat = function O -> 0 | S n -> 1 + int_of_nat n
+let rec nat_of_int i = if i <= 0 then Model.O else Model.S (nat_of_int (i - 1))
+let rec int_of_nat = function Model.O -> 0 | Model.S n -> 1 + int_of_nat n
 
 (* strings travel as atoms "x" ^ hex bytes; in the model they are lists of Z bytes *)
 let str_of_atom (a : string) : Model.z list =
